@@ -1,6 +1,6 @@
 (* C13 property theorems: statements only; every proof is [exact lemma].
    Same LTS as C12 (Gv.C12.Model, repaired code = variant [fixed]); all action lists, all oracles. *)
-From Gv Require Import C12.Model C12.Spec C13.Spec C13.ProofsC13 C13.ProofsCause C13.ProofsFinal C12.Witness.
+From Gv Require Import C12.Model C12.Spec C13.Spec C13.ProofsC13 C13.ProofsCause C13.ProofsIdent C13.ProofsFinal C12.Witness.
 From Coq Require Import List Bool Arith PeanoNat.
 Import ListNotations.
 
@@ -32,8 +32,10 @@ Theorem c13_shared_iff_same_input :
   forall flt wresf ev_bad hbfail (input hhash : Type) (keyof : input -> hhash -> key),
     (forall i h i' h', keyof i h = keyof i' h' -> i = i' /\ h = h') ->
     forall (inp : sid -> input) (hdr : sid -> hhash) acts st s1 s2,
-    run fixed flt wresf ev_bad hbfail init acts = Some st -> In s1 (byid st) -> In s2 (byid st) ->
-    s_key (subs st s1) = keyof (inp s1) (hdr s1) -> s_key (subs st s2) = keyof (inp s2) (hdr s2) ->
+    run fixed flt wresf ev_bad hbfail init acts = Some st ->
+    (* every subscribe action names its subscriber under the key of its own rendered input and headers hash *)
+    (forall n s k c hb sy, In (AClient n (CSub s k c hb sy)) acts -> k = keyof (inp s) (hdr s)) ->
+    In s1 (byid st) -> In s2 (byid st) ->
     (s_tid (subs st s1) = s_tid (subs st s2) <-> inp s1 = inp s2 /\ hdr s1 = hdr s2).
 Proof. exact final_shared_iff_same_input. Qed.
 Print Assumptions c13_shared_iff_same_input.
@@ -43,8 +45,9 @@ Print Assumptions c13_shared_iff_same_input.
    subscription and Start is called once *)
 Theorem c13_sharing_needs_injective_key :
   exists (keyof : nat * nat -> nat -> key) (inp : sid -> nat * nat) (hdr : sid -> nat) st,
-    run fixed flt0 wres0 bad0 hb0 init ex_collide = Some st /\ In 1 (byid st) /\ In 2 (byid st) /\
-    s_key (subs st 1) = keyof (inp 1) (hdr 1) /\ s_key (subs st 2) = keyof (inp 2) (hdr 2) /\
+    run fixed flt0 wres0 bad0 hb0 init ex_collide = Some st /\
+    (forall n s k c hb sy, In (AClient n (CSub s k c hb sy)) ex_collide -> k = keyof (inp s) (hdr s)) /\
+    In 1 (byid st) /\ In 2 (byid st) /\
     inp 1 <> inp 2 /\ s_tid (subs st 1) = s_tid (subs st 2) /\ starts (chron st) = [0].
 Proof. exact sharing_needs_injective_key_proof. Qed.
 Print Assumptions c13_sharing_needs_injective_key.
